@@ -133,6 +133,15 @@ func VerifC03_Conservation() {
 		}
 	}
 	sym.Assert(confirmed+onDisk+dropped == k, "every accepted chunk is confirmed, on disk, or counted as dropped - exactly one of them")
+	// ---- C19: per-output chunk counters balance ----
+	inT := int(m.CounterValue("input_chunks_total")) // (vector: read below)
+	_ = inT
+	consumedC := int(m.CounterValue("consumed_chunks_total", "hybridBuffer"))
+	leftoverC := int(m.CounterValue("leftover_chunks_total", "hybridBuffer"))
+	pendingG := int(m.GaugeValue("pending_chunks", "hybridBuffer"))
+	sym.Assert(consumedC == confirmed, "consumed counter = chunks confirmed by the consumer")
+	sym.Assert(consumedC+leftoverC+dropped+pendingG == k, "accepted = delivered + handed back + dropped + still pending")
+	sym.Assert(leftoverC+pendingG == onDisk, "left on disk = handed back + saved by the buffer itself")
 	for i := 1; i < len(cons.taken); i++ {
 		sym.Assert(cons.taken[i-1].ID < cons.taken[i].ID, "chunks reach the consumer in acceptance order")
 	}
@@ -296,3 +305,47 @@ func VerifC03_QueueOverflowKeepsLimit() {
 	}
 	sym.Reach("done")
 }
+
+// VerifC05_RecoveryOrder: restart recovery read as the ordering guarantee.
+//
+//verif:native off
+//verif:solver cvc5-int
+//verif:preempt 0
+//verif:reach done over-capacity
+func VerifC05_RecoveryOrder() { VerifC03_RestartGenerations() }
+
+// VerifC18_BufferStops: after Destroy the feeder has stopped and nothing is
+// left only in memory when a queue directory is available (C03 conservation run).
+//
+//verif:native off
+//verif:solver cvc5-int
+//verif:preempt 0
+//verif:reach done spilled handed-back dropped
+//verif:paths 100000
+func VerifC18_BufferStops() { VerifC03_Conservation() }
+
+// VerifC01_BufferCustody: link L4 of the custody chain.
+//
+//verif:native off
+//verif:solver cvc5-int
+//verif:preempt 0
+//verif:reach done spilled handed-back dropped
+//verif:paths 100000
+func VerifC01_BufferCustody() { VerifC03_Conservation() }
+
+// VerifC01_RestartCustody: link L6: files left by a previous run are queued first, complete.
+//
+//verif:native off
+//verif:solver cvc5-int
+//verif:preempt 0
+//verif:reach done over-capacity
+func VerifC01_RestartCustody() { VerifC03_RestartGenerations() }
+
+// VerifC19_BufferCounters: the conservation run read as the per-output balance of the buffer metrics.
+//
+//verif:native off
+//verif:solver cvc5-int
+//verif:preempt 0
+//verif:reach done spilled handed-back dropped
+//verif:paths 100000
+func VerifC19_BufferCounters() { VerifC03_Conservation() }
